@@ -204,6 +204,8 @@ Definition ok_proxy_case (pre : proxy) (steps : list pstep) (post : proxy) (same
              match ps_cmd st, ps_err st with
              | PMake n, None => opt_eqb N.eqb (p_open post) (Some n)
              | PGive c k, None => is_ok (open_resp post c k)             (* handed over and removed *)
+             (* (re-)association: from now on the proxy is associated with exactly the signer it was given *)
+             | PAddSigner si, None | PUpdateSigner si, None => opt_eqb sinfo_eqb (p_signer post) (Some si)
              | _, _ => true
              end
          end
